@@ -44,7 +44,8 @@ def confirm(sid):
         demo = os.path.join(d, "seeded_demo.rs")
         # a demo that drives the internal API (`extern crate join_impl` without the `join` macros) is a join_impl test
         text = open(demo).read()
-        crate = "join_impl" if (("extern crate join_impl" in text or "use join_impl::" in text) and "extern crate join;" not in text and "use join::" not in text) else "join"
+        # (join_impl's tests may also use the macros: `join` is a dev-dependency of join_impl; join's tests cannot use join_impl)
+        crate = "join_impl" if ("extern crate join_impl" in text or "use join_impl::" in text) else "join"
         os.makedirs(os.path.join(wt, crate, "tests"), exist_ok=True)
         shutil.copy(demo, os.path.join(wt, crate, "tests", "seeded_demo.rs"))
         rc, log = sh("cargo test -p %s --offline --test seeded_demo" % crate, wt)
